@@ -14,6 +14,8 @@ use tu_verif::sched::{self, Config, Exec, Halt, Parked};
 static SPIN: AtomicUsize = AtomicUsize::new(0);
 /// the base schedule policy of the unit being explored (recorded in replay cases)
 static POLICY: AtomicUsize = AtomicUsize::new(0);
+/// 1: the processing function contains a scheduling point of its own ("the item is being processed")
+static WORK: AtomicUsize = AtomicUsize::new(0);
 
 /// what the upstream iterator of the unit being explored reports as its size hint (0 exact, 1 nothing
 /// `(0, None)`, 2 an inexact non-zero lower bound `(1, Some(n + 2))`); recorded in replay cases
@@ -79,6 +81,10 @@ fn exec(w: usize, n: usize, prefix: &[usize]) -> (Exec<Vec<usize>>, Vec<usize>) 
         let s3 = s2.clone();
         let pipeline: Pipeline<usize, usize> = Arc::new(move |x: usize| {
             s3.calls[x].fetch_add(1, Ordering::SeqCst);
+            if WORK.load(Ordering::SeqCst) == 1 {
+                // an always-enabled point that changes nothing in the mirror (a lock nobody ever holds)
+                text_utils::verif::point(Event::Lock { obj: Obj::CountLock });
+            }
             f(x)
         });
         let mut pipe = Upstream { next: 0, n, hint: HINT.load(Ordering::SeqCst) }.pipe(pipeline, w as u8);
@@ -121,7 +127,7 @@ fn check(run: &mut Run, mode: &str, w: usize, n: usize, bound: Option<usize>, x:
         run.nontrivial += 1;
     }
     let expect: Vec<usize> = (0..n).map(f).collect();
-    let case = || json!({"mode": mode, "workers": w, "items": n, "bound": bound, "spin_polls": SPIN.load(Ordering::SeqCst), "base_schedule_policy": POLICY.load(Ordering::SeqCst), "upstream_size_hint": HINTS[HINT.load(Ordering::SeqCst)], "choices": x.choices(), "schedule": x.schedule()});
+    let case = || json!({"mode": mode, "workers": w, "items": n, "bound": bound, "spin_polls": SPIN.load(Ordering::SeqCst), "base_schedule_policy": POLICY.load(Ordering::SeqCst), "processing_has_a_scheduling_point": WORK.load(Ordering::SeqCst) == 1, "upstream_size_hint": HINTS[HINT.load(Ordering::SeqCst)], "choices": x.choices(), "schedule": x.schedule()});
     if x.spun > 0 {
         run.count_n("polls of busy waits let through (long waits)", x.spun);
     }
@@ -181,6 +187,8 @@ struct Unit {
     spin: usize,
     /// index into HINTS
     hint: usize,
+    /// processing takes time (a scheduling point inside the processing function)
+    work: bool,
 }
 
 fn units(run: &Run) -> Vec<Unit> {
@@ -189,21 +197,21 @@ fn units(run: &Run) -> Vec<Unit> {
     // explicit-state full search (no preemption bound): cheap, so it goes furthest
     for w in 0..=3usize {
         for n in 0..=(if quick { 3 } else { 6 }) {
-            u.push(Unit { mode: "states", w, n, bound: None, part: None, spin: 0, hint: 0 });
+            u.push(Unit { mode: "states", w, n, bound: None, part: None, spin: 0, hint: 0, work: false });
         }
     }
     if !quick {
         for n in 0..=4 {
-            u.push(Unit { mode: "states", w: 4, n, bound: None, part: None, spin: 0, hint: 0 });
+            u.push(Unit { mode: "states", w: 4, n, bound: None, part: None, spin: 0, hint: 0, work: false });
         }
         for n in 0..=2 {
-            u.push(Unit { mode: "states", w: 5, n, bound: None, part: None, spin: 0, hint: 0 });
+            u.push(Unit { mode: "states", w: 5, n, bound: None, part: None, spin: 0, hint: 0, work: false });
         }
     }
     // stateless preemption-bounded cross-check (merges nothing; grows fast with the bound)
     let mut split = |w: usize, n: usize, bound: usize, of: usize| {
         for k in 0..of {
-            u.push(Unit { mode: "bounded", w, n, bound: Some(bound), part: if of > 1 { Some((k, of)) } else { None }, spin: 0, hint: 0 });
+            u.push(Unit { mode: "bounded", w, n, bound: Some(bound), part: if of > 1 { Some((k, of)) } else { None }, spin: 0, hint: 0, work: false });
         }
     };
     if !quick {
@@ -212,7 +220,7 @@ fn units(run: &Run) -> Vec<Unit> {
         split(2, 4, 4, 8);
         split(3, 4, 2, 8);
     }
-    let mut bounded = |w: usize, n: usize, bound: usize| u.push(Unit { mode: "bounded", w, n, bound: Some(bound), part: None, spin: 0, hint: 0 });
+    let mut bounded = |w: usize, n: usize, bound: usize| u.push(Unit { mode: "bounded", w, n, bound: Some(bound), part: None, spin: 0, hint: 0, work: false });
     if quick {
         for n in 1..=3 {
             bounded(1, n, 3);
@@ -239,14 +247,14 @@ fn units(run: &Run) -> Vec<Unit> {
     // the schedule space of the short inputs is explored exhaustively above)
     for n in tu_verif::enumerate::threshold_lengths(if quick { 8 } else { 10 }) {
         for w in 1..=3usize {
-            u.push(Unit { mode: "default-schedule", w, n, bound: Some(0), part: None, spin: 0, hint: 0 });
+            u.push(Unit { mode: "default-schedule", w, n, bound: Some(0), part: None, spin: 0, hint: 0, work: false });
         }
     }
     // many workers: thread counts around the powers of two a threshold would sit at (work handed out
     // in blocks that grow with the thread count), with item counts that are not multiples of anything
     for w in tu_verif::enumerate::threshold_lengths(if quick { 5 } else { 7 }) {
         for n in [1usize, 3, 7, w + 1] {
-            u.push(Unit { mode: "default-schedule", w, n, bound: Some(0), part: None, spin: 0, hint: 0 });
+            u.push(Unit { mode: "default-schedule", w, n, bound: Some(0), part: None, spin: 0, hint: 0, work: false });
         }
     }
     // more workers than a small-count special case would cover, with more items than the channel
@@ -257,26 +265,32 @@ fn units(run: &Run) -> Vec<Unit> {
     // while two or more threads are parked at a send on the pipe's channel, at most 2 of them, around
     // the base schedule 'fair workers, consumer last' in which every worker holds an item and the
     // channel fills before the consumer moves)
-    u.push(Unit { mode: "sender-races", w: 9, n: 11, bound: Some(2), part: None, spin: 0, hint: 0 });
-    u.push(Unit { mode: "sender-races", w: 3, n: 5, bound: Some(2), part: None, spin: 0, hint: 0 });
+    u.push(Unit { mode: "sender-races", w: 9, n: 11, bound: Some(2), part: None, spin: 0, hint: 0, work: false });
+    u.push(Unit { mode: "sender-races", w: 3, n: 5, bound: Some(2), part: None, spin: 0, hint: 0, work: false });
     if !quick {
-        u.push(Unit { mode: "sender-races", w: 17, n: 19, bound: Some(2), part: None, spin: 0, hint: 0 });
+        u.push(Unit { mode: "sender-races", w: 17, n: 19, bound: Some(2), part: None, spin: 0, hint: 0, work: false });
         // any two threads at an operation of the channel (the ordinary producer / consumer race), one deviation
-        u.push(Unit { mode: "channel-races", w: 9, n: 11, bound: Some(1), part: None, spin: 0, hint: 0 });
+        u.push(Unit { mode: "channel-races", w: 9, n: 11, bound: Some(1), part: None, spin: 0, hint: 0, work: false });
+    }
+    // per-item processing delays: a scheduling point inside the processing function, every interleaving
+    for w in 1..=3usize {
+        for n in 1..=(if quick { 2 } else { 4 }) {
+            u.push(Unit { mode: "states", w, n, bound: None, part: None, spin: 0, hint: 0, work: true });
+        }
     }
     // upstream iterators whose size hint is not exact (every interleaving again for the small cases):
     // the number of items is what the iterator yields, not what it announces
     for hint in 1..HINTS.len() {
         for w in 1..=2usize {
             for n in 2..=(if quick { 3 } else { 4 }) {
-                u.push(Unit { mode: "states", w, n, bound: None, part: None, spin: 0, hint });
+                u.push(Unit { mode: "states", w, n, bound: None, part: None, spin: 0, hint, work: false });
             }
         }
     }
     // long waits: the same bounded search while every turn wait really spins (relative processing
     // speed: the item in front is slower by that many polls of the turn counter)
     let spin = if quick { 1 << 21 } else { 1 << 22 };
-    let mut long = |w: usize, n: usize, bound: usize| u.push(Unit { mode: "long-waits", w, n, bound: Some(bound), part: None, spin, hint: 0 });
+    let mut long = |w: usize, n: usize, bound: usize| u.push(Unit { mode: "long-waits", w, n, bound: Some(bound), part: None, spin, hint: 0, work: false });
     if quick {
         long(2, 2, 1);
     } else {
@@ -295,6 +309,7 @@ fn main() {
         let choices: Vec<usize> = case["choices"].as_array().unwrap().iter().map(|v| v.as_u64().unwrap() as usize).collect();
         sched::set_spin_polls(case["spin_polls"].as_u64().unwrap_or(0) as usize);
         sched::set_base_policy(case["base_schedule_policy"].as_u64().unwrap_or(0) as usize);
+        WORK.store(usize::from(case["processing_has_a_scheduling_point"].as_bool().unwrap_or(false)), Ordering::SeqCst);
         HINT.store(HINTS.iter().position(|h| Some(*h) == case["upstream_size_hint"].as_str()).unwrap_or(0), Ordering::SeqCst);
         let (x, calls) = exec(w, n, &choices);
         // replaying a recorded schedule must reproduce it exactly
@@ -307,7 +322,7 @@ fn main() {
     let us = units(&run);
     if let Some(n) = run.describe_unit() {
         let u = &us[n as usize];
-        println!("{}", json!({"mode": u.mode, "workers": u.w, "items": u.n, "bound": u.bound, "part": u.part, "spin_polls": u.spin, "upstream_size_hint": HINTS[u.hint]}));
+        println!("{}", json!({"mode": u.mode, "workers": u.w, "items": u.n, "bound": u.bound, "part": u.part, "spin_polls": u.spin, "upstream_size_hint": HINTS[u.hint], "processing_has_a_scheduling_point": u.work}));
         return;
     }
     run.bounds.insert("explicit_state".into(), json!("all interleavings (no preemption bound) for every listed (workers, items)"));
@@ -320,6 +335,7 @@ fn main() {
         sched::set_spin_polls(u.spin);
         SPIN.store(u.spin, Ordering::SeqCst);
         HINT.store(u.hint, Ordering::SeqCst);
+        WORK.store(usize::from(u.work), Ordering::SeqCst);
         // determinism of the machinery itself: the default schedule replayed twice gives identical traces
         let (a, _) = exec(u.w, u.n, &[]);
         let (b, _) = exec(u.w, u.n, &a.choices());
